@@ -222,6 +222,13 @@ pub struct Player {
     pub actions: Box<[Node]>,
 }
 
+// ---- extracted from src/regret.rs: struct DeviationInfo ----
+pub struct DeviationInfo<'a> {
+    pub future_nodes: usize,
+    pub prob_nodes: Vec<(&'a Player, f64)>,
+    pub max_utility: f64,
+}
+
 // children of a node, as a sequence (shared by the ev and val specifications)
 pub open spec fn kids_of(n: Node) -> Seq<Node> {
     match n {
@@ -237,184 +244,212 @@ pub proof fn lemma_dist(r: real, a: real, w: real, e: real)
     assert(r * (a + w * e) == r * a + (w * r) * e) by(nonlinear_arith);
 }
 
-// ---------- specification of C01 (utility): expectation of a tree, from the property text ----------
-pub struct Ctx { pub chance: Seq<Seq<f64>>, pub s1: Seq<Seq<f64>>, pub s2: Seq<Seq<f64>> }
+// ---- specification: value of a continuation up to the deviating player's next infosets ----
+pub struct VCtx { pub chance: Seq<Seq<f64>>, pub opp: Seq<Seq<f64>>, pub utab: Seq<f64>, pub p1: bool }
 
-pub open spec fn weights_of(n: Node, c: Ctx) -> Seq<f64> {
+pub open spec fn own(n: Node, p1: bool) -> bool {
+    match n { Node::Player(pl) => (match pl.num { PlayerNum::One => p1, PlayerNum::Two => !p1 }), _ => false }
+}
+pub open spec fn vweights(n: Node, c: VCtx) -> Seq<f64> {
     match n {
         Node::Terminal(_) => Seq::empty(),
         Node::Chance(ch) => c.chance[ch.infoset as int],
-        Node::Player(pl) => match pl.num { PlayerNum::One => c.s1[pl.infoset as int], PlayerNum::Two => c.s2[pl.infoset as int] },
+        Node::Player(pl) => c.opp[pl.infoset as int],
     }
 }
-// ev(n) = payoff at a terminal; sum_i w_i * ev(child_i) at chance (w = chance probabilities of the
-// node's infoset) and at player nodes (w = the acting player's strategy at the node's infoset)
-pub open spec fn ev(n: Node, c: Ctx) -> real
+pub open spec fn val(n: Node, c: VCtx) -> real
     decreases n, 1int, 0int
 {
     match n {
-        Node::Terminal(p) => rv(p),
-        _ => sum_kids(n, c, kids_of(n).len() as int),
+        Node::Terminal(p) => if c.p1 { rv(p) } else { 0real - rv(p) },
+        Node::Player(pl) => if own(n, c.p1) { rv(c.utab[pl.infoset as int]) } else { vsum(n, c, kids_of(n).len() as int) },
+        Node::Chance(_) => vsum(n, c, kids_of(n).len() as int),
     }
 }
-pub open spec fn sum_kids(parent: Node, c: Ctx, k: int) -> real
+pub open spec fn vsum(parent: Node, c: VCtx, k: int) -> real
     decreases parent, 0int, k
 {
     if k <= 0 || k > kids_of(parent).len() { 0real } else {
-        sum_kids(parent, c, k - 1) + rv(weights_of(parent, c)[k - 1]) * ev(kids_of(parent)[k - 1], c)
+        vsum(parent, c, k - 1) + rv(vweights(parent, c)[k - 1]) * val(kids_of(parent)[k - 1], c)
     }
 }
-// what Game::from_root is ASSUMED to establish (C11 is not applicable) plus validity of the profile
-pub open spec fn wf_node(n: Node, c: Ctx) -> bool
+pub open spec fn vwf(n: Node, c: VCtx) -> bool
     decreases n
 {
     match n {
         Node::Terminal(_) => true,
-        Node::Chance(ch) => ch.infoset < c.chance.len() && weights_of(n, c).len() == kids_of(n).len()
-            && forall|i: int| 0 <= i < kids_of(n).len() ==> wf_node(#[trigger] kids_of(n)[i], c),
-        Node::Player(pl) => {
-            (match pl.num { PlayerNum::One => pl.infoset < c.s1.len(), PlayerNum::Two => pl.infoset < c.s2.len() })
-            && weights_of(n, c).len() == kids_of(n).len()
-            && (forall|i: int| 0 <= i < kids_of(n).len() ==> rv(#[trigger] weights_of(n, c)[i]) >= 0real)
-            && forall|i: int| 0 <= i < kids_of(n).len() ==> wf_node(#[trigger] kids_of(n)[i], c)
-        }
+        Node::Chance(ch) => ch.infoset < c.chance.len() && vweights(n, c).len() == kids_of(n).len()
+            && forall|i: int| 0 <= i < kids_of(n).len() ==> vwf(#[trigger] kids_of(n)[i], c),
+        Node::Player(pl) => if own(n, c.p1) { pl.infoset < c.utab.len() } else {
+            pl.infoset < c.opp.len() && vweights(n, c).len() == kids_of(n).len()
+            && (forall|i: int| 0 <= i < kids_of(n).len() ==> rv(#[trigger] vweights(n, c)[i]) >= 0real)
+            && forall|i: int| 0 <= i < kids_of(n).len() ==> vwf(#[trigger] kids_of(n)[i], c)
+        },
     }
 }
-pub open spec fn qsum(q: Seq<(&Node, f64)>, c: Ctx) -> real
+pub open spec fn vqsum(q: Seq<(&Node, f64)>, c: VCtx) -> real
     decreases q.len()
 {
-    if q.len() == 0 { 0real } else { qsum(q.drop_last(), c) + rv(q.last().1) * ev(*q.last().0, c) }
+    if q.len() == 0 { 0real } else { vqsum(q.drop_last(), c) + rv(q.last().1) * val(*q.last().0, c) }
 }
-pub open spec fn ctx_of<C: ChanceInfoset, S: AsRef<[f64]>>(chance_info: &[C], strat_info: [&[S]; 2]) -> Ctx {
-    Ctx {
+pub open spec fn vctx_of<C: ChanceInfoset, S: AsRef<[f64]>>(p1: bool, infosets: &[DeviationInfo], chance_info: &[C], strat_info: &[S]) -> VCtx {
+    VCtx {
         chance: Seq::new(chance_info@.len(), |i: int| chance_info@[i].probs_view()),
-        s1: Seq::new(strat_info[0]@.len(), |i: int| asref_view::<S, [f64]>(&strat_info[0]@[i])@),
-        s2: Seq::new(strat_info[1]@.len(), |i: int| asref_view::<S, [f64]>(&strat_info[1]@[i])@),
+        opp: Seq::new(strat_info@.len(), |i: int| asref_view::<S, [f64]>(&strat_info@[i])@),
+        utab: Seq::new(infosets@.len(), |i: int| infosets@[i].max_utility),
+        p1: p1,
     }
 }
-
-pub proof fn lemma_qsum_push(q: Seq<(&Node, f64)>, e: (&Node, f64), c: Ctx)
-    ensures qsum(q.push(e), c) == qsum(q, c) + rv(e.1) * ev(*e.0, c)
+pub proof fn lemma_vqsum_push(q: Seq<(&Node, f64)>, e: (&Node, f64), c: VCtx)
+    ensures vqsum(q.push(e), c) == vqsum(q, c) + rv(e.1) * val(*e.0, c)
 {
     assert(q.push(e).drop_last() =~= q);
 }
 
-// ---- extracted from src/regret.rs: fn expected ----
+// ---- extracted from src/regret.rs: fn next_infoset_search ----
 #[verifier::exec_allows_no_decreases_clause]
-pub fn expected(
-    node: &Node,
+pub fn next_infoset_search<'a, const PLAYER_ONE: bool>(
+    start: &'a Node,
+    search_queue: &mut Vec<(&'a Node, f64)>,
+    infosets: &[DeviationInfo],
     chance_info: &[impl ChanceInfoset],
-    strat_info: [&[impl AsRef<[f64]>]; 2],
-) -> (res: f64) 
+    strat_info: &[impl AsRef<[f64]>],
+) -> (out: f64) 
     requires
-        wf_node(*node, ctx_of(chance_info, strat_info)),
+        old(search_queue)@.len() == 0,
+        vwf(*start, vctx_of(PLAYER_ONE, infosets, chance_info, strat_info)),
     ensures
-        rv(res) == ev(*node, ctx_of(chance_info, strat_info)), // @ob C01.V.expected.value
+        final(search_queue)@.len() == 0, // @ob C01.V.next_infoset_search.queue_empty
+        rv(out) == val(*start, vctx_of(PLAYER_ONE, infosets, chance_info, strat_info)), // @ob C01.V.next_infoset_search.value
 {
 broadcast use fl; broadcast use ideal;
 proof { ax_obeys(); ax_rv_lits(); }
-let ghost c = ctx_of(chance_info, strat_info);
-let ghost root = *node;
+let ghost c = vctx_of(PLAYER_ONE, infosets, chance_info, strat_info);
 
-    let mut queue = vec![(node, 1.0)];
-    let mut expected = 0.0;
+    let mut res = 0.0;
+    search_queue.push((start, 1.0));
     proof {
-    assert(queue@ =~= Seq::<(&Node, f64)>::empty().push((node, 1.0f64)));
-    lemma_qsum_push(Seq::<(&Node, f64)>::empty(), (node, 1.0f64), c);
+    assert(search_queue@ =~= Seq::<(&Node, f64)>::empty().push((start, 1.0f64)));
+    lemma_vqsum_push(Seq::<(&Node, f64)>::empty(), (start, 1.0f64), c);
 }
-while let Some((node, reach)) = queue.pop() 
+while let Some((node, reach)) = search_queue.pop() 
 invariant
-    c == ctx_of(chance_info, strat_info),
-    forall|i: int| 0 <= i < queue@.len() ==> wf_node(*(#[trigger] queue@[i]).0, c),
-    rv(expected) + qsum(queue@, c) == ev(root, c), // @ob C01.V.expected.value
+    c == vctx_of(PLAYER_ONE, infosets, chance_info, strat_info),
+    forall|i: int| 0 <= i < search_queue@.len() ==> vwf(*(#[trigger] search_queue@[i]).0, c),
+    rv(res) + vqsum(search_queue@, c) == val(*start, c), // @ob C01.V.next_infoset_search.value
 ensures
-    queue@.len() == 0,
+    search_queue@.len() == 0,
 {
 broadcast use fl; broadcast use ideal;
 proof { ax_obeys(); ax_rv_lits(); }
 
         match node {
             Node::Terminal(payoff) => {
-                expected = expected + ( reach * payoff);
+                if PLAYER_ONE {
+                    res = res + ( payoff * reach);
+                } else {
+                    res = res - ( payoff * reach);
+                }
             }
             Node::Chance(chance) => {
                 let probs = chance_info[chance.infoset].probs();
-                let ghost q0 = queue@;
-proof { assert(sum_kids(*node, c, 0) == 0real); }
+                let ghost q0 = search_queue@;
+proof { assert(vsum(*node, c, 0) == 0real); }
 for (prob, next) in it: probs.iter().zip(chance.outcomes.iter()) 
 invariant
-    c == ctx_of(chance_info, strat_info),
-    wf_node(*node, c),
+    c == vctx_of(PLAYER_ONE, infosets, chance_info, strat_info),
+    vwf(*node, c),
     *node == Node::Chance(*chance),
-    probs@ == weights_of(*node, c),
+    probs@ == vweights(*node, c),
     probs@.len() == chance.outcomes@.len(),
     0 <= it.index@ <= probs@.len(),
-    forall|i: int| 0 <= i < queue@.len() ==> wf_node(*(#[trigger] queue@[i]).0, c),
-    qsum(queue@, c) == qsum(q0, c) + rv(reach) * sum_kids(*node, c, it.index@), // @ob C01.V.expected.value
+    forall|i: int| 0 <= i < search_queue@.len() ==> vwf(*(#[trigger] search_queue@[i]).0, c),
+    vqsum(search_queue@, c) == vqsum(q0, c) + rv(reach) * vsum(*node, c, it.index@), // @ob C01.V.next_infoset_search.value
 {
 broadcast use fl; broadcast use ideal;
 proof { ax_obeys(); ax_rv_lits(); }
 let ghost k = it.index@;
-let ghost qb = queue@;
+let ghost qb = search_queue@;
 proof {
     assert(kids_of(*node)[k] == *next);
-    assert(sum_kids(*node, c, k + 1) == sum_kids(*node, c, k) + rv(probs@[k]) * ev(*next, c));
+    assert(vsum(*node, c, k + 1) == vsum(*node, c, k) + rv(probs@[k]) * val(*next, c));
 }
 
-                    queue.push((next, prob * reach));
+                    search_queue.push((next, prob * reach));
                 
 proof {
-    lemma_qsum_push(qb, (next, fmul(*prob, reach)), c);
-    lemma_dist(rv(reach), sum_kids(*node, c, k), rv(*prob), ev(*next, c));
+    lemma_vqsum_push(qb, (next, fmul(*prob, reach)), c);
+    lemma_dist(rv(reach), vsum(*node, c, k), rv(*prob), val(*next, c));
 }
 }
             }
-            Node::Player(player) => {
-                let probs = player.num.ind(&strat_info)[player.infoset].as_ref();
-                let ghost q0 = queue@;
-proof { assert(sum_kids(*node, c, 0) == 0real); }
+            Node::Player(player) => match (player.num, PLAYER_ONE) {
+                (PlayerNum::One, true) | (PlayerNum::Two, false) => {
+                    let info = &infosets[player.infoset];
+                    
+                    
+                    res = res + ( info.max_utility * reach);
+                }
+                (PlayerNum::One, false) | (PlayerNum::Two, true) => {
+                    let probs = strat_info[player.infoset].as_ref();
+                    let ghost q0 = search_queue@;
+proof { assert(vsum(*node, c, 0) == 0real); }
 for (prob, next) in it: probs.iter().zip(player.actions.iter()) 
 invariant
-    c == ctx_of(chance_info, strat_info),
-    wf_node(*node, c),
+    c == vctx_of(PLAYER_ONE, infosets, chance_info, strat_info),
+    vwf(*node, c),
     *node == Node::Player(*player),
-    probs@ == weights_of(*node, c),
+    !own(*node, c.p1),
+    probs@ == vweights(*node, c),
     probs@.len() == player.actions@.len(),
     0 <= it.index@ <= probs@.len(),
-    forall|i: int| 0 <= i < queue@.len() ==> wf_node(*(#[trigger] queue@[i]).0, c),
-    qsum(queue@, c) == qsum(q0, c) + rv(reach) * sum_kids(*node, c, it.index@), // @ob C01.V.expected.value
+    forall|i: int| 0 <= i < search_queue@.len() ==> vwf(*(#[trigger] search_queue@[i]).0, c),
+    vqsum(search_queue@, c) == vqsum(q0, c) + rv(reach) * vsum(*node, c, it.index@), // @ob C01.V.next_infoset_search.value
 {
 broadcast use fl; broadcast use ideal;
 proof { ax_obeys(); ax_rv_lits(); }
 let ghost k = it.index@;
-let ghost qb = queue@;
+let ghost qb = search_queue@;
 proof {
     assert(kids_of(*node)[k] == *next);
-    assert(sum_kids(*node, c, k + 1) == sum_kids(*node, c, k) + rv(probs@[k]) * ev(*next, c));
+    assert(vsum(*node, c, k + 1) == vsum(*node, c, k) + rv(probs@[k]) * val(*next, c));
 }
-proof { assert(rv(weights_of(*node, c)[k]) >= 0real); }
+proof { assert(rv(vweights(*node, c)[k]) >= 0real); }
 
-                    if prob > &0.0 {
-                        queue.push((next, prob * reach));
-                    }
-                
+                        if prob > &0.0 {
+                            search_queue.push((next, prob * reach));
+                        }
+                    
 proof {
-    let w = rv(*prob); let r = rv(reach); let e = ev(*next, c);
-    lemma_dist(r, sum_kids(*node, c, k), w, e);
+    let w = rv(*prob); let r = rv(reach); let e = val(*next, c);
+    lemma_dist(r, vsum(*node, c, k), w, e);
     if w > 0real {
-        lemma_qsum_push(qb, (next, fmul(*prob, reach)), c);
+        lemma_vqsum_push(qb, (next, fmul(*prob, reach)), c);
     } else {
         assert((w * r) * e == 0real) by(nonlinear_arith) requires w == 0real;
         assert(w * e == 0real) by(nonlinear_arith) requires w == 0real;
     }
 }
 }
-            }
+                }
+            },
         }
+    
+proof {
+    let r = rv(reach);
+    let v = val(*node, c);
+    assert(r * (0real - v) == 0real - v * r) by(nonlinear_arith);
+    assert(r * v == v * r) by(nonlinear_arith);
+    if let Node::Terminal(p) = *node {
+        let pv = rv(p);
+        assert(r * (0real - pv) == 0real - pv * r) by(nonlinear_arith);
+        assert(r * pv == pv * r) by(nonlinear_arith);
     }
-proof { assert(queue@.len() == 0); assert(qsum(queue@, c) == 0real); }
+}
+}
+proof { assert(vqsum(search_queue@, c) == 0real); }
 
-    expected
+    res
 }
 
 
